@@ -458,7 +458,8 @@ type qHist struct {
 	// a second storage node whose database never saw the metric (its leaf answers "not found")
 	ghost tsdb.Engine
 	// the REAL broker state manager (coordinator/broker): plans the leaves of every layout (Choose)
-	planner *qPlanner
+	planner  *qPlanner
+	planReal bool // the query driver only (other drivers use run() as a reader)
 }
 
 // ghostEngine opens (once) an engine with the same database and one shard in which nothing was ever written
@@ -821,7 +822,7 @@ func (h *qHist) run(q *qQuery, lay *qLayout) (res trace.F, info string) {
 			anyShard = true
 		}
 	}
-	if !lay.ghost && len(leafNodes) > 0 {
+	if h.planReal && !lay.ghost && len(leafNodes) > 0 {
 		// the leaves that hold shards are planned by the real broker state manager; what it answers is an event (the
 		// specification wants every shard of the layout exactly once, at the leaf that leads it) and is what the
 		// root / the compute nodes get; leaves without shards (never a target of a real plan) stay the driver's
@@ -1698,7 +1699,7 @@ func queryMain(args []string) int {
 	}
 	for i := 0; i < nhist; i++ {
 		h := &qHist{rec: rec, rng: rng, sum: sum, dir: filepath.Join(*scratch, fmt.Sprintf("%s-%d", *mode, i)), dbName: fmt.Sprintf("db%d", i),
-			debug: *debug, kinds: kinds, hangMs: *hangMs}
+			debug: *debug, kinds: kinds, hangMs: *hangMs, planReal: true}
 		h.base = qBases[rng.Intn(len(qBases))].UnixMilli()
 		ns := 2 + rng.Intn(3)
 		h.series = append([]qSeries{}, qAllSeries[:ns]...)
